@@ -748,7 +748,10 @@ func TestC09Table(t *testing.T) {
 		for i := range blobs {
 			blobs[i] = genBlob(t, i)
 		}
-		nKeys := rapid.IntRange(0, 9).Draw(t, "nKeys")
+		nKeys := rapid.IntRange(1, 10).Draw(t, "nKeys")
+		if rapid.IntRange(0, 29).Draw(t, "emptyTable") == 29 {
+			nKeys = 0
+		}
 		T := cmap.Table{}
 		var kbs []keyBlob
 		for i := 0; i < nKeys; i++ {
@@ -1026,7 +1029,7 @@ func TestC09InstallCMap(t *testing.T) {
 		lookup := func(c uint32) uint16 { return 0 }
 		var probes []uint32
 		if use12 {
-			m := genMap32(t, rapid.Bool().Draw(t, "bmpOnly"))
+			m := genMap32(t, rapid.IntRange(0, 3).Draw(t, "bmpOnly") == 0)
 			lib := cmap.Format12{}
 			for c, g := range m.m {
 				lib[c] = glyph.ID(g)
